@@ -12,6 +12,8 @@ mod lexer;
 mod nodes;
 mod decode;
 mod values;
+mod imm;
+mod memloc;
 
 pub fn geti(v: &serde_json::Value, k: &str) -> Option<i64> {
     v.get("inputs")?.get(k)?.as_i64()
@@ -34,6 +36,8 @@ fn main() {
         Some("genkill-search") => nodes::genkill_search(&v),
         Some("nodes-search") => nodes::nodes_search(&v),
         Some("lexer-search") => lexer::search(&v),
+        Some("imm") => imm::run(args.get(1).map(String::as_str).unwrap_or(""), &v),
+        Some("memloc") => memloc::run(args.get(1).map(String::as_str).unwrap_or(""), &v),
         Some("regs") => regs::run(args.get(1).map(String::as_str).unwrap_or(""), &v),
         _ => {
             println!("unknown replay recipe {:?}", args);
